@@ -35,7 +35,7 @@ from . import core, devices
 # candidate repairs (exact change test for the applied potential; terminal value re-imposed
 # after the Euler step).  Which one the tree under test implements is decided by TLC
 # (trace validation under both), and that mechanism is then model-checked.
-CODE = dict(MMask=True, MBothHalves=True, MFreshLinks=True)
+CODE = dict(MMask=True, MBothHalves=True, MFreshLinks=True, MFixPsi=True)
 PINNED = dict(MTrigger="prev_close", MReimpose=False, **CODE)
 REPAIRED = dict(MTrigger="exact", MReimpose=True, **CODE)
 
@@ -431,9 +431,17 @@ def natural_run(tdgl, a, tmp):
     TDGLSolver.get_induced_vector_potential = w_induced
     MeshOperators.set_link_exponents = w_links
     cwd = os.getcwd()
+    aborted = None
     try:
         os.chdir(work)
-        tdgl.solve(dev, opts, **kw)
+        try:
+            tdgl.solve(dev, opts, **kw)
+        except RuntimeError as e:
+            # a screening iteration that does not converge / a step that cannot be solved is a documented
+            # refusal of the solver (C13 / C02), not an observation about operators or pinning
+            if "failed to converge" not in str(e):
+                raise
+            aborted = str(e)[:200]
     finally:
         os.chdir(cwd)
         TDGLSolver.__init__ = orig["init"]
@@ -445,6 +453,8 @@ def natural_run(tdgl, a, tmp):
         MeshOperators.set_link_exponents = orig["links"]
     if st["unreadable"]:
         raise RuntimeError(st["unreadable"])
+    if aborted:
+        return dict(aborted=aborted, info=dict(input=a))
     # saved frames (read with h5py, not through Solution)
     classes, worst = [], 0.0
     with h5py.File(out, "r") as f:
@@ -487,7 +497,9 @@ def trace_cfg(mech, invariants, reporting=True):
 def validate(ctx, traces, mech, invariants, what, count_impl=True, parts=4):
     """Batch trace validation (TLC decides).  Returns (accepted: set of indices,
     bad: {index: sorted list of (position, clause)} for traces that reach a state where a
-    property clause is false, wall seconds).  The batch is split into `parts` TLC runs."""
+    property clause is false, wall seconds).  The batch is split into `parts` TLC runs.
+    `bad` is meaningful for accepted traces only (verdict source 3); a trace that is not
+    accepted is not a behaviour of the specification at all (verdict source 2)."""
     import re
     import time
     from concurrent.futures import ThreadPoolExecutor
@@ -497,17 +509,16 @@ def validate(ctx, traces, mech, invariants, what, count_impl=True, parts=4):
     cfg = trace_cfg(mech, invariants)
     parts = max(1, min(parts, len(traces) // 40 or 1))
     bounds = [round(k * len(traces) / parts) for k in range(parts + 1)]
-    tdir = ctx.tmp / "traces"
-    tdir.mkdir(exist_ok=True)
-    base = len(list(tdir.iterdir()))
+    from pathlib import Path
+
     t0 = time.time()
 
     def one(k):
         lo, hi = bounds[k], bounds[k + 1]
-        tf = tdir / f"ops_{base}_{k}.json"
+        wd = Path(tempfile.mkdtemp(prefix="tlc_tr", dir=ctx.tmp))      # private: validations may run side by side
+        tf = wd / "batch.json"
         tf.write_text(json.dumps([strip(t) for t in traces[lo:hi]]))
-        r = core.run_tlc("OpsCacheTrace", cfg, ctx.tmp / f"tlc_tr{k}", workers=1, timeout=1500,
-                         env={"TRACE_FILE": str(tf)})
+        r = core.run_tlc("OpsCacheTrace", cfg, wd, workers=1, timeout=1500, env={"TRACE_FILE": str(tf)})
         return lo, r
 
     with ThreadPoolExecutor(parts) as ex:
@@ -576,9 +587,147 @@ def identify_mechanism(ctx, traces, switch, values, base, what):
     """Which of the modelled mechanisms does the code under test implement?  Decided by TLC:
     the natural traces are validated (no property clause) under each value of `switch`.
     Returns (value, {value: accepted set}); value None when no mechanism accepts every trace."""
-    res = {}
-    for val in values:
-        acc, _, _ = validate(ctx, traces, dict(base, **{switch: val}), [], f"{what}, {switch}={val}", count_impl=False)
-        res[val] = acc
+    out = in_parallel([lambda val=val: validate(ctx, traces, dict(base, **{switch: val}), [], f"{what}, {switch}={val}",
+                                                count_impl=False) for val in values])
+    res = {val: o[0] for val, o in zip(values, out)}
     full = [val for val in values if len(res[val]) == len(traces)]
     return full, res
+
+
+# --------------------------------------------------------------------------- shared steps of C10 / C06
+
+
+def model_check(ctx, bounds, mech, invariants, spec, view, name, required=(), **kw):
+    """ctx.model_check + vacuity guard (coverage is only required of a run that was completed)."""
+    r = ctx.model_check("OpsCache", cfg_text(bounds, mech, invariants, spec, view=view), name=name, coverage=bool(required),
+                        timeout=1500, **kw)
+    if required and not r.violated:
+        cov = r.coverage()
+        for a in required:
+            if cov.get(a, (0, 0))[1] == 0:
+                raise core.MachineryFailure(f"{name}: action {a} never taken (vacuous)")
+            ctx.cov["actions_covered"][a] = cov[a][1]
+    return r
+
+
+def in_parallel(thunks):
+    """Independent TLC runs side by side (each is a subprocess)."""
+    from concurrent.futures import ThreadPoolExecutor
+
+    with ThreadPoolExecutor(max(1, len(thunks))) as ex:
+        futs = [ex.submit(t) for t in thunks]
+        return [f.result() for f in futs]
+
+
+OPS_MUTANTS = (("MMask", "FixedRowsAreIdentity"), ("MBothHalves", "RefreshEqualsRebuild"),
+               ("MFreshLinks", "RefreshEqualsRebuild"), ("MFixPsi", "NoOtherRowPinned"))
+
+
+def ops_level(ctx, pid, invariants, rnd, nsample):
+    """The cache: TLC decides the clauses on SpecOps; modelled mutants of the refresh path must violate them
+    (design canaries); sequences are exported for the replay.  Returns replay jobs."""
+    quick = ctx.quick
+    full = dict(OPS_DEFAULT, QIds=[1, 2, 3, 4] if quick else [1, 2, 3, 4, 5, 6, 7, 8], MaxCalls=6)
+    ctx.cov["bounds"]["OpsCache/SpecOps"] = full
+    model_check(ctx, full, REPAIRED, invariants, "SpecOps", "ViewOps", f"OpsCache/SpecOps[{pid}]",
+                required=["OpsBuild", "OpsRefresh"])
+    small = dict(OPS_DEFAULT, QIds=[1, 2, 3], MaxCalls=3)
+    # (alphabet, length, how many of the maximal sequences are replayed: None = all)
+    plan = ([([1, 2, 3], 4, None), ([1, 2, 3, 4], 6, nsample)] if quick else
+            [([1, 2, 3], 6, None), ([1, 2, 3, 4], 5, None), ([3, 4, 5, 6, 7, 8], 6, nsample)])
+    thunks = [lambda q=q, n=n: export_ops(ctx, dict(full, QIds=q, MaxCalls=n),
+                                          name=f"OpsCache (export, configurations {q}, length {n})") for q, n, _ in plan]
+    for switch, inv in OPS_MUTANTS:
+        thunks.append(lambda switch=switch, inv=inv: ctx.model_check(
+            "OpsCache", cfg_text(small, dict(REPAIRED, **{switch: False}), [inv], "SpecOps", view="ViewOps"),
+            name=f"OpsCache/SpecOps[modelled mutant {switch}=FALSE must violate {inv}]", expect_violation=inv, count=False))
+    res = in_parallel(thunks)
+    seqs, expect, exported = [], {}, 0
+    for (q, n, take), (sq, ex) in zip(plan, res):
+        exported += len(sq)
+        sq.sort()                       # TLC prints in worker order: make the seeded sample reproducible
+        if take is not None:
+            rnd.shuffle(sq)
+            sq = sq[:take]
+        seqs += sq
+        expect.update(ex)
+    ctx.cov["behaviours_exported"] = exported
+    ctx.cov["replay_plan"] = [dict(configurations=q, length=n, replayed=("all" if t is None else t)) for q, n, t in plan]
+    ctx.cov["behaviours_replayed"] = len(seqs)
+    ctx.cov["exhaustive"] = False
+    jobs = ops_jobs(seqs, expect, chunk=60 if quick else 400)
+    gen_seqs = [list(s) for (_, _, s) in seqs[:: max(1, len(seqs) // (40 if quick else 400))]]
+    gen_seqs += [[2, 6, 2, 6, 1, 6], [5, 8, 5, 1, 1, 7], [1, 1, 1], [7]]
+    jobs.append(("call", dict(module="harness.opscache", func="replay_ops_generated",
+                              args=dict(dev="bar", modes=["none", "terminals", "disabled"], seqs=gen_seqs, seed=ctx.seed))))
+    return jobs
+
+
+def judge_ops_traces(ctx, pid, traces, invariants):
+    """Trace validation of the operator-level replays; every rejected trace / false clause is a violation."""
+    acc, bad, _ = validate(ctx, traces, REPAIRED, invariants, f"{pid} operator replays", parts=4 if ctx.quick else 8)
+    reported = 0
+    for n, tr in enumerate(traces):
+        key = f"{tr['inst']}{'' if tr['exact'] else '(generated mesh)'}/{tr['mode']}/q={[e['q'] for e in tr['ev']]}"
+        ctx.note_case((pid, key), len({e["q"] for e in tr["ev"]}) >= 2)
+        if n in acc and n not in bad:
+            continue
+        if reported >= 4:
+            ctx.cov["further_failing_traces_not_diagnosed"] = ctx.cov.get("further_failing_traces_not_diagnosed", 0) + 1
+            continue
+        reported += 1
+        if n in acc:                      # a behaviour of the model in which a clause is false
+            pos, clause = bad[n][0]
+            ctx.violation(f"{pid}:{clause}:ops:{key}",
+                          f"{pid}: the real MeshOperators reach a state where {clause} is false at call {pos - 1}: {key}",
+                          {"trace": tr, "false_clauses": bad[n]})
+        else:
+            report_rejected(ctx, f"{pid}:ops", key, tr, REPAIRED, invariants)
+    good = [n for n in sorted(acc) if n not in bad]
+    return good
+
+
+def split_aborted(ctx, inputs, traces):
+    """Drop natural runs the solver refused (documented RuntimeError); they are listed in the evidence."""
+    keep_in, keep_tr = [], []
+    for a, t in zip(inputs, traces):
+        if "aborted" in t:
+            ctx.cov.setdefault("natural_runs_refused_by_the_solver", []).append({"label": a["label"], "error": t["aborted"]})
+        else:
+            keep_in.append(a)
+            keep_tr.append(t)
+    return keep_in, keep_tr
+
+
+def replay_file(ctx, path, invariants):
+    """./check Cxx --replay <path>: re-decide one recorded violation on the tree under test.
+    model counterexample -> TLC is run again on the stored cfg; natural run -> the input is executed again on the
+    real solver and the new trace is validated; operator replay -> the stored trace is validated again."""
+    d = json.load(open(path))
+    if "cfg" in d:
+        r = core.run_tlc(d["module"], d["cfg"], ctx.tmp / "tlc")
+        print(f"model {d['module']}: violated={r.violated}")
+        print(r.counterexample(4000))
+        return 1 if r.violated else 0
+    mech = d.get("mechanism", REPAIRED)
+    if "input" in d:
+        tdgl = core.import_tdgl()
+        tr = natural_run(tdgl, d["input"], str(ctx.tmp))
+        if "aborted" in tr:
+            print("the solver refused the run:", tr["aborted"])
+            return 2
+    else:
+        tr = d["trace"]
+    # the mechanism the code conforms to decides (stored one first, then the property-satisfying one)
+    for m in (mech, REPAIRED):
+        acc, bad, _ = validate(ctx, [tr], m, invariants, "replay", count_impl=False)
+        if acc and bad:
+            print(f"clauses false: {bad[0][:10]}; info: {tr.get('info')}")
+            return 1
+        if acc:
+            print(f"accepted under {m}, every clause holds")
+            return 0
+    far, violated, at, tail = diagnose(ctx, tr, REPAIRED, invariants)
+    print(f"not a behaviour of OpsCache: stuck at event {far}: "
+          f"{json.dumps({k: v for k, v in (at or {}).items() if k not in ('lap', 'grad')})}")
+    return 1
